@@ -900,6 +900,45 @@ def ieee_simplify(n, memo=None):
     return memo[n]
 
 
+def ieee_exact_at(n, same, memo=None):
+    """`n` rewritten under the hypothesis that the nodes in each pair of `same` hold the SAME float (pairs (old, new): old is
+    replaced by new), using only rewrites that are exact in IEEE arithmetic for finite operands:
+    those of ieee_simplify plus x - x -> 0, 0 / x -> 0 and x / x -> 1 (x finite, non-zero).
+    NOT included on purpose: x * (1/x) -> 1, (a*b)/b -> a, re-association - these round."""
+    memo = {} if memo is None else memo
+    rep = {id(o): nw for o, nw in same}
+    for x in topo([n]):
+        if x in memo:
+            continue
+        if id(x) in rep:
+            memo[x] = rep[id(x)]
+            continue
+        if x.op in ('var', 'const'):
+            memo[x] = x
+            continue
+        a = [memo[q] if isinstance(q, Node) else q for q in x.args]
+        op = x.op
+        r = None
+        if op == 'mul':
+            if a[0] is ONE: r = a[1]
+            elif a[1] is ONE: r = a[0]
+            elif a[0] is ZERO or a[1] is ZERO: r = ZERO
+        elif op == 'add':
+            if a[0] is ZERO: r = a[1]
+            elif a[1] is ZERO: r = a[0]
+        elif op == 'sub':
+            if a[1] is ZERO: r = a[0]
+            elif a[0] is a[1]: r = ZERO
+        elif op == 'div':
+            if a[1] is ONE: r = a[0]
+            elif a[0] is ZERO: r = ZERO
+            elif a[0] is a[1]: r = ONE
+        elif op == 'neg':
+            if a[0] is ZERO: r = ZERO
+        memo[x] = r if r is not None else Node(op, *a)
+    return memo[n]
+
+
 def take_ite_true(n, conds=None, memo=None, pairs=None):
     """rewrite every ite(c, x, y) to x, collecting the conditions c (to be asserted as assumptions) and, in `pairs`, each
     condition together with the value selected when it holds"""
